@@ -23,6 +23,7 @@ A mismatch that is exactly what a single named deviation predicts is attributed 
 that is an open finding or a violation)."""
 import fcntl
 import json
+from concurrent.futures import ThreadPoolExecutor
 import os
 import random
 import re
@@ -44,6 +45,8 @@ SENSITIVITY = [
     ("MC_JsonMap_bug_objnull.cfg", "ObjNullDropsRest", "MacroOk"),
     ("MC_JsonMap_bug_droplast.cfg", "DropLastElem", "MacroOk"),
     ("MC_JsonMap_bug_keyrename.cfg", "KeyIgnoresRename", "RoundTrip"),
+    ("MC_JsonMap_bug_renamefirst.cfg", "RenameMustBeFirst", "ShapeOk"),
+    ("MC_JsonMap_bug_vecnone.cfg", "VecNoneDropped", "RoundTrip"),
     ("MC_JsonMap_bug_tupleobj.cfg", "TupleAsObject", "ShapeOk"),
     ("MC_JsonMap_bug_noneomitted.cfg", "NoneOmitted", "ShapeOk"),
     ("MC_JsonMap_dupkeys.cfg", "AllowDupKeys", "RoundTrip"),
@@ -54,7 +57,18 @@ def tlc(module, cfg, **kw):
     env = dict(UTF8)
     env.update(kw.pop("env", {}))
     kw.setdefault("work_id", "c14")
-    return run_tlc(module, cfg, D, env=env, **kw)
+    r = run_tlc(module, cfg, D, env=env, **kw)
+    # re-read the printed JSON lines splitting on "\n" only: str.splitlines() (used by vlib) also splits on U+0085,
+    # U+2028, FS/GS/RS ..., which occur inside the strings under test (TLC's ToJson leaves U+0085 unescaped)
+    r.prints = []
+    for line in r.out.split("\n"):
+        line = line.rstrip("\r")
+        if line.startswith('"{') or line.startswith('"['):
+            try:
+                r.prints.append(json.loads(json.loads(line)))
+            except ValueError:
+                pass
+    return r
 
 
 # ------------------------------------------------------------------------------------------------------
@@ -105,26 +119,32 @@ def tree_size(t):
 
 def rust_type(ty):
     b = ty["base"]
-    t = {"Bool": "bool", "F64": "f64", "Str": "String"}.get(b) or ty["a"]
+    t = {"Bool": "bool", "F64": "f64", "F32": "f32", "Str": "String"}.get(b) or ty["a"]
     for w in reversed(ty["w"]):
         t = ("Option<%s>" if w == "Opt" else "Vec<%s>") % t
     return t
 
 
-def rust_decl(d):
-    n, fs = d["name"], d["fields"]
+def rust_decl(d, traits="FromJson, IntoJson", name=None):
+    """Rust source of a declaration. `traits`/`name` let the same declaration be emitted as two types that derive
+    IntoJson and FromJson separately."""
+    n, fs = name or d["name"], d["fields"]
     lines = []
 
     def attrs(f, rename):
-        out = []
-        if f.get("doc"):
-            out.append("    /// documented member (an attribute that is not `rename`)")
+        out, a = [], f.get("doc") or ""
+        if a == "doc":
+            out.append("    /// documented member (an attribute that is not `rename`, before it)")
+        elif a == "allow":
+            out.append("    #[allow(dead_code)]")
         if rename and f["hasRen"]:
             out.append("    #[rename = %s]" % rust_str(f["ren"]))
+        if a == "after":
+            out.append("    /// documented member (the doc attribute comes after `rename`)")
         return out
 
     if d["kind"] == "named":
-        derive = "FromJson, IntoJson, Debug, PartialEq, Clone" if d["via"] == "derive" else "Debug, PartialEq, Clone"
+        derive = (traits + ", Debug, PartialEq, Clone") if d["via"] == "derive" else "Debug, PartialEq, Clone"
         lines.append("#[derive(%s)]" % derive)
         lines.append("pub struct %s {" % n)
         for f in fs:
@@ -137,14 +157,14 @@ def rust_decl(d):
             lines.append(",\n".join("    %s => %s" % (f["id"], rust_str(f["ren"])) for f in fs))
             lines.append("}")
     elif d["kind"] == "tuple":
-        lines.append("#[derive(FromJson, IntoJson, Debug, PartialEq, Clone)]")
+        lines.append("#[derive(%s, Debug, PartialEq, Clone)]" % traits)
         lines.append("pub struct %s(" % n)
         for f in fs:
             lines += attrs(f, False)
             lines.append("    pub %s," % rust_type(f["ty"]))
         lines.append(");")
     else:
-        lines.append("#[derive(FromJson, IntoJson, Debug, PartialEq, Clone)]")
+        lines.append("#[derive(%s, Debug, PartialEq, Clone)]" % traits)
         lines.append("pub enum %s {" % n)
         for f in fs:
             lines += attrs(f, True)
@@ -168,8 +188,8 @@ def rust_value(v, ty, prog):
         return v["s"]
     if b == "Int":
         return "%s%d%s" % (v["s"], bits_int(v["b"]), ty["a"])
-    if b == "F64":
-        return "%s%d%sf64" % (v["s"], bits_int(v["b"]), ("." + v["f"]) if v["f"] else "")
+    if b in ("F64", "F32"):
+        return "%s%d%s%s" % (v["s"], bits_int(v["b"]), ("." + v["f"]) if v["f"] else "", b.lower())
     if b == "Str":
         return rust_str(v["s"]) + ".to_string()"
     d = next(x for x in prog if x["name"] == ty["a"])
@@ -186,6 +206,25 @@ def rust_decl_value(v, d, prog):
 
 
 MOD_HEAD = "use crate::support;\nuse humphrey_json::prelude::*;\nuse humphrey_json::Value;\n\n"
+
+
+def split_fn(fname, d, v, prog, doc):
+    """The same vector with IntoJson and FromJson derived on two separate types (T__i serialises, T__f reads)."""
+    ni, nf = d["name"] + "__i", d["name"] + "__f"
+    return ("pub fn %s() -> String {\n"
+            "    let vi: %s = %s;\n"
+            "    let vf: %s = %s;\n"
+            "    let doc: &str = %s;\n"
+            "    let j = vi.to_json();\n"
+            "    let ser = humphrey_json::to_string(&vi);\n"
+            "    let rt = %s::from_json(&j) == Ok(vf.clone());\n"
+            "    let rtt = humphrey_json::from_str::<%s, _>(&ser) == Ok(vf.clone());\n"
+            "    let pe = Value::parse(doc).map(|x| x == j).unwrap_or(false);\n"
+            "    let fe = humphrey_json::from_str::<%s, _>(doc) == Ok(vf.clone());\n"
+            "    let sp = Value::parse(&ser).map(|x| x == j).unwrap_or(false);\n"
+            "    support::map_result(&j, &ser, rt, rtt, pe, fe, sp)\n"
+            "}\n") % (fname, ni, rust_decl_value(v, dict(d, name=ni), prog), nf, rust_decl_value(v, dict(d, name=nf), prog),
+                      rust_str(json_text(doc)), nf, nf, nf)
 
 
 def map_fn(fname, d, v, prog, doc):
@@ -223,12 +262,22 @@ class Crate:
         self.owner = {}         # module -> description object (for compile error reports)
         self.line_of = {}       # (module, line) -> vector id (literal chunks: one function per line)
 
-    def add_program(self, mod, prog, vec_specs, what):
-        """vec_specs: list of (vector id, function name, decl, value, doc)."""
+    def add_program(self, mod, prog, vec_specs, what, split_specs=()):
+        """vec_specs: list of (vector id, function name, decl, value, doc); split_specs: the same for vectors that are
+        (also) run with IntoJson / FromJson derived separately on twin types."""
         src = ["// " + what, MOD_HEAD]
         for d in prog:
             src.append(rust_decl(d))
             src.append("")
+        twins = []
+        for vid, fn, d, v, doc in split_specs:
+            if d["name"] not in twins:
+                twins.append(d["name"])
+                src.append(rust_decl(d, traits="IntoJson", name=d["name"] + "__i"))
+                src.append(rust_decl(d, traits="FromJson", name=d["name"] + "__f"))
+                src.append("")
+            src.append(split_fn(fn, d, v, prog, doc))
+            self.vecs.append((vid, mod, fn))
         for vid, fn, d, v, doc in vec_specs:
             src.append(map_fn(fn, d, v, prog, doc))
             self.vecs.append((vid, mod, fn))
@@ -271,12 +320,76 @@ class Crate:
         with open(os.path.join(GEN, "src", "main.rs"), "w") as f:
             f.write("// generated by checks/c14.py - do not edit\n#![allow(unused, non_snake_case, non_camel_case_types, clippy::all)]\n"
                     "mod g;\nmod support;\n\nstatic VECTORS: &[(&str, fn() -> String)] = &[\n%s\n];\n\n"
-                    "fn main() {\n    support::quiet_panics();\n    for (id, f) in VECTORS {\n        support::run(id, *f);\n    }\n}\n"
+                    "fn main() {\n    support::quiet_panics();\n"
+                    "    let start: usize = std::env::args().nth(1).and_then(|s| s.parse().ok()).unwrap_or(0);\n"
+                    "    for (id, f) in &VECTORS[start.min(VECTORS.len())..] {\n        support::run(id, *f);\n    }\n}\n"
                     % "\n".join(rows))
+        self.order = [vid for vid, m, fn in self.vecs if m not in excluded_mods and vid not in excluded_vecs]
         return len(rows)
 
 
-_ERR = re.compile(r"^(src/g/(\w+)\.rs):(\d+):(\d+): error(\[E\d+\])?: (.*)$")
+class CrateSet:
+    """The generated code as a sequence of crates of at most LIMIT vectors, built and run one after the other in gen/
+    (one rustc at a time: a single crate with tens of thousands of functions needs several GB)."""
+    LIMIT = 9000
+
+    def __init__(self):
+        self.crates = [Crate()]
+
+    def _cur(self):
+        if len(self.crates[-1].vecs) >= self.LIMIT:
+            self.crates.append(Crate())
+        return self.crates[-1]
+
+    def add_program(self, *a, **kw):
+        self._cur().add_program(*a, **kw)
+
+    def add_literals(self, prefix, lits, env, chunk=400):
+        for c in range(0, len(lits), chunk):
+            self._cur().add_literals("%s%03d_" % (prefix, c // chunk), lits[c:c + chunk], env, chunk)
+
+    @property
+    def modules(self):
+        return sum(len(c.owner) for c in self.crates)
+
+
+_GFILE = re.compile(r"(?:^|/)src/g/(\w+)\.rs$")
+
+
+def error_sites(cargo_json_output):
+    """(module, line, message) for every rustc error that touches a generated module: the primary span, or - for
+    errors reported inside a macro expansion (the definition site in /repo's macros.rs is the primary span then) - the
+    invocation site found by walking the expansion chain."""
+    out, other = [], []
+    for line in cargo_json_output.split("\n"):
+        if not line.startswith("{"):
+            continue
+        try:
+            o = json.loads(line)
+        except ValueError:
+            continue
+        m = o.get("message") if o.get("reason") == "compiler-message" else None
+        if not m or m.get("level") != "error":
+            continue
+        sites = []
+
+        def walk(sp):
+            while sp:
+                g = _GFILE.search(sp.get("file_name", ""))
+                if g:
+                    sites.append((g.group(1), sp.get("line_start", 0)))
+                sp = (sp.get("expansion") or {}).get("span")
+
+        for sp in sorted(m.get("spans", []), key=lambda x: not x.get("is_primary")):
+            walk(sp)
+        for ch in m.get("children", []):
+            for sp in ch.get("spans", []):
+                walk(sp)
+        if sites:
+            out.append((sites[0][0], sites[0][1], m.get("message", "")))
+        elif not m.get("message", "").startswith("aborting due to") and "could not compile" not in m.get("message", ""):
+            other.append(m.get("rendered") or m.get("message", ""))
+    return out, other
 
 
 def build_and_run(crate, ctx, label):
@@ -288,9 +401,10 @@ def build_and_run(crate, ctx, label):
     try:
         excl_mods, excl_vecs, compile_errors = set(), set(), []
         t0 = time.time()
-        for attempt in range(6):
+        built = False
+        for attempt in range(8):
             n = crate.write(excl_mods, excl_vecs)
-            cargo_cmd = ["cargo", "build", "--offline", "-q", "--message-format=short"]
+            cargo_cmd = ["cargo", "build", "--offline", "-q", "--message-format=json"]
             bin_path = os.path.join(GEN, "target", "debug", "c14gen")
             if os.path.abspath(vlib.REPO) != "/repo":
                 # development aid (seeded changes in a scratch worktree): build against that checkout, own target dir
@@ -300,15 +414,13 @@ def build_and_run(crate, ctx, label):
                               "--target-dir", tdir]
                 bin_path = os.path.join(tdir, "debug", "c14gen")
             p = subprocess.run(cargo_cmd, cwd=GEN, env=vlib.cargo_env(),
-                               stdout=subprocess.PIPE, stderr=subprocess.STDOUT, text=True, errors="replace")
+                               stdout=subprocess.PIPE, stderr=subprocess.PIPE, text=True, errors="replace")
             if p.returncode == 0:
+                built = True
                 break
             found = False
-            for line in p.stdout.splitlines():
-                m = _ERR.match(line.strip())
-                if not m:
-                    continue
-                mod, ln, msg = m.group(2), int(m.group(3)), m.group(6)
+            sites, other = error_sites(p.stdout)
+            for mod, ln, msg in sites:
                 if mod not in crate.owner:
                     continue
                 found = True
@@ -324,16 +436,43 @@ def build_and_run(crate, ctx, label):
                                            "program": crate.owner[mod].get("prog"), "what": crate.owner[mod].get("what"),
                                            "source": crate.mods[mod].split("\n")[max(0, ln - 3):ln + 2]})
             if not found:
-                raise vlib.ToolError("generated crate does not build and the error is not inside a generated module:\n"
-                                     + "\n".join(p.stdout.splitlines()[-40:]))
-        else:
-            raise vlib.ToolError("generated crate still does not build after excluding %d modules / %d literals"
-                                 % (len(excl_mods), len(excl_vecs)))
+                raise vlib.ToolError("generated crate does not build and no error touches a generated module:\n"
+                                     + "\n".join(other)[-3000:] + "\n" + p.stderr[-1500:])
+        if not built:
+            # still failing after eight rounds of excluding what rustc pointed at: every remaining vector counts as
+            # "does not compile" (a result, not a tool error) and nothing is run
+            vlib.log("[C14] generated crate still does not build after excluding %d modules / %d literals" % (len(excl_mods), len(excl_vecs)))
+            res = {vid: {"id": vid, "compiled": False, "rustc": "crate does not build: " + (compile_errors[-1]["message"] if compile_errors else "?")}
+                   for vid, _, _ in crate.vecs}
+            for ce in compile_errors:
+                if "vector" in ce:
+                    res[ce["vector"]]["rustc"] = ce["message"]
+            ctx.add_part("generated crate (%s)" % label, modules=len(crate.mods), vectors=0, build_s=round(time.time() - t0, 1),
+                         compile_errors=len(compile_errors), rounds=attempt + 1, process_deaths=0)
+            return res, compile_errors
         build_s = time.time() - t0
-        r = vlib.run_bin(bin_path, [], timeout=900)
-        if r.returncode != 0:
-            raise vlib.ToolError("generated program failed rc=%s: %s" % (r.returncode, r.stderr[-1500:]))
-        res = {}
+        # run; a vector that kills the process (abort, stack overflow) is data too: it is recorded and the run resumes
+        # after it
+        res, start, deaths = {}, 0, 0
+        while True:
+            r = vlib.run_bin(bin_path, [str(start)], timeout=900)
+            got = 0
+            for ln in r.stdout.split("\n"):       # not splitlines(): U+2028 etc. occur inside the strings under test
+                if ln.startswith("{") and ln.endswith("}"):
+                    try:
+                        x = json.loads(ln)
+                    except ValueError:
+                        break
+                    res[x["id"]] = x
+                    got += 1
+            if r.returncode == 0:
+                break
+            deaths += 1
+            if start + got >= len(crate.order) or deaths > 25:
+                raise vlib.ToolError("generated program failed rc=%s after %d vectors: %s" % (r.returncode, start + got, r.stderr[-1500:]))
+            vid = crate.order[start + got]
+            res[vid] = {"id": vid, "panic": "process died (rc %s): %s" % (r.returncode, r.stderr.strip()[-300:])}
+            start += got + 1
         failed = {}                                 # vector id -> rustc message (its module / literal did not compile)
         for ce in compile_errors:
             if "vector" in ce:
@@ -342,16 +481,12 @@ def build_and_run(crate, ctx, label):
                 for vid, m, _ in crate.vecs:
                     if m == ce["module"]:
                         failed[vid] = ce["message"]
-        for ln in r.stdout.split("\n"):           # not splitlines(): U+2028 etc. occur inside the strings under test
-            if ln.startswith("{"):
-                x = json.loads(ln)
-                res[x["id"]] = x
         if len(res) != n and os.environ.get("C14_KEEP"):
             open(os.path.join(vlib.workdir("C14"), "stdout.txt"), "w").write(r.stdout)
         if len(res) != n:
             raise vlib.ToolError("generated program printed %d result lines for %d vectors" % (len(res), n))
         ctx.add_part("generated crate (%s)" % label, modules=len(crate.mods), vectors=n, build_s=round(build_s, 1),
-                     compile_errors=len(compile_errors), rounds=attempt + 1)
+                     compile_errors=len(compile_errors), rounds=attempt + 1, process_deaths=deaths)
         for x in res.values():
             x["compiled"] = True
         for vid, msg in failed.items():
@@ -436,7 +571,7 @@ class RandomInputs:
         if earlier and r.random() < 0.35:
             base = ("Ref", r.choice(earlier))
         else:
-            base = r.choice([("Bool", ""), ("F64", ""), ("Str", "")] + [("Int", k) for k in self.kinds] * 1)
+            base = r.choice([("Bool", ""), ("F64", ""), ("F32", ""), ("Str", "")] + [("Int", k) for k in self.kinds] * 1)
         w = []
         for _ in range(r.choice([0, 0, 1, 1, 2, 2, 3])):
             c = r.choice(["Opt", "Vec"])
@@ -460,7 +595,7 @@ class RandomInputs:
                     has, ren = True, (fid if r.random() < 0.3 else self.string(self.cat["renames"]))
                 elif r.random() < 0.5:
                     has, ren = True, self.string(self.cat["renames"])
-            fields.append({"id": fid, "hasRen": has, "ren": ren, "doc": r.random() < 0.25, "ty": ty})
+            fields.append({"id": fid, "hasRen": has, "ren": ren, "doc": r.choice(["", "", "", "", "doc", "allow", "after"]), "ty": ty})
         # precondition WellFormed: members of one type travel under distinct names
         ks = [f["ren"] if f["hasRen"] else f["id"] for f in fields]
         if len(set(ks)) != len(ks):
@@ -480,7 +615,8 @@ class RandomInputs:
         mx = (1 << (n - 1)) - 1 if signed else (1 << n) - 1
         mn = -(1 << (n - 1)) if signed else 0
         if r.random() < 0.4:
-            x = r.choice([mn, mx, 0, 1, -1, mx - 1, mn + 1, 1 << 53, (1 << 53) + 1, (1 << 53) - 1, -(1 << 53) - 1, (1 << 63), (1 << 64) - 2])
+            e = r.choice([7, 8, 15, 16, 24, 31, 32, 53, 63, 64, 127])
+            x = r.choice([mn, mx, 0, 1, -1, mx - 1, mn + 1, (1 << e) - 1, 1 << e, (1 << e) + 1, -(1 << e), -(1 << e) - 1, -(1 << e) + 1])
         else:
             x = r.getrandbits(r.randint(1, n))
             if signed and r.random() < 0.5:
@@ -505,6 +641,11 @@ class RandomInputs:
             # Display prints exactly this decimal (the observation is compared as text)
             ip = r.choice([0, 0, 1, r.getrandbits(10), r.getrandbits(20), r.getrandbits(30)])
             fr = r.choice(["", "", "5", "25", "75", "125", "375", "0625"])
+            sg = "-" if (ip or fr) and r.random() < 0.4 else ""
+            return val("f64", sg, to_bits(ip), fr)
+        if b == "F32":          # exact in binary32: < 2^24 with a dyadic fraction of <= 3 bits
+            ip = r.choice([0, 1, r.getrandbits(8), r.getrandbits(20), (1 << 24) - 1])
+            fr = "" if ip >= (1 << 20) else r.choice(["", "5", "25", "75", "125"])
             sg = "-" if (ip or fr) and r.random() < 0.4 else ""
             return val("f64", sg, to_bits(ip), fr)
         if b == "Str":
@@ -532,6 +673,136 @@ class RandomInputs:
 
 
 # ------------------------------------------------------------------------------------------------------
+# Deterministic sweeps for the code -> spec direction (inputs only, independent of VERIF_SEED): every rename / key
+# string of a list of hard cases in every place a name can stand, names that differ only in case, long vectors with
+# None in every position, nested containers in every position of a json! array / object, long literals.
+# ------------------------------------------------------------------------------------------------------
+
+SWEEP_EXTRA = ["\u0001", "\u001f", "\r\n", "\u0080", "\u009f", "x\u0000y", "\ufeff", "\u200b", "\u2029", "\\u0041", "\\n", "%s", "{}",
+               "null", "true", "0", "-1", " ", "\t", "\n", "\u0130\u0307", "\U000e0001", "a\u0085", "\u0085a"]
+
+
+def _fld(fid, ren, attr, ty):
+    return {"id": fid, "hasRen": ren is not None, "ren": ren or "", "doc": attr, "ty": ty}
+
+
+def _ty(base, a="", w=()):
+    return {"base": base, "a": a, "w": list(w)}
+
+
+def _keys_ok(d):
+    ks = [f["ren"] if f["hasRen"] else f["id"] for f in d["fields"]]
+    return len(set(ks)) == len(ks)
+
+
+def sweep_programs(cat):
+    """[(program, [(decl name, value, also as split twins)])]"""
+    ri = RandomInputs(20260929, cat)
+    attrs = ["", "doc", "allow", "after"]
+    out = []
+
+    def pack(prog, nvals=2):
+        vs = []
+        for d in prog:
+            if not _keys_ok(d):
+                raise vlib.ToolError("sweep produced a declaration outside the domain: %s" % d)
+            if d["kind"] == "enum":
+                vals = [val("enum", f["id"]) for f in d["fields"]]
+            else:
+                vals = [ri.decl_value(d, prog) for _ in range(nvals)]
+            for i, v in enumerate(vals):
+                vs.append((d["name"], v, d["via"] == "derive" and i == 0))
+        out.append((prog, vs))
+
+    strs = list(dict.fromkeys(cat["renames"] + SWEEP_EXTRA))
+    for i, s_ in enumerate(strs):
+        a1, a2, a3 = attrs[i % 4], attrs[(i + 1) % 4], attrs[(i + 2) % 4]
+        if s_ in ("Bee", "value"):
+            continue
+        prog = [
+            {"name": "D1", "kind": "enum", "via": "derive",
+             "fields": [_fld("A", s_, a1, UNIT), _fld("Bee", None, a2, UNIT), _fld("C3", s_ + "x", a3, UNIT)]},
+            {"name": "D2", "kind": "named", "via": "derive",
+             "fields": [_fld("a", s_, a1, _ty("Int", "u8")), _fld("value", None, a2, _ty("Ref", "D1", ["Opt"])),
+                        _fld("b2", " " + s_ + " ", a3, _ty("Str", "", ["Vec", "Opt"]))]},
+            {"name": "D3", "kind": "named", "via": "map",
+             "fields": [_fld("a", s_, a1, _ty("Ref", "D1")), _fld("value", s_ + "x", "", _ty("Int", "i64", ["Opt"]))]},
+            {"name": "D4", "kind": "tuple", "via": "derive",
+             "fields": [_fld("0", None, a1, _ty("Ref", "D2")), _fld("1", None, a2, _ty("Ref", "D3", ["Opt"]))]},
+        ]
+        pack(prog)
+    # names that differ only in case (or only after case mapping)
+    pack([{"name": "D1", "kind": "enum", "via": "derive",
+           "fields": [_fld("A", "x", "", UNIT), _fld("Bee", "X", "doc", UNIT), _fld("C3", "\u00df", "", UNIT), _fld("Value", "SS", "", UNIT),
+                      _fld("E", "ss", "after", UNIT), _fld("F", "e", "", UNIT)]},
+          {"name": "D2", "kind": "named", "via": "derive",
+           "fields": [_fld("a", "k", "", _ty("Int", "u8")), _fld("value", "K", "", _ty("Int", "u16")), _fld("b2", "Key", "doc", _ty("Int", "u32")),
+                      _fld("string", "KEY", "", _ty("Int", "i8")), _fld("e", None, "", _ty("Int", "i16")), _fld("f", "E", "", _ty("Ref", "D1"))]},
+          {"name": "D3", "kind": "named", "via": "map",
+           "fields": [_fld("a", "a", "", _ty("Bool")), _fld("value", "A", "", _ty("Bool", "", ["Opt"])), _fld("b2", "VALUE", "", _ty("Str"))]}], 3)
+    # long vectors, None in every position
+    d = {"name": "D1", "kind": "tuple", "via": "derive",
+         "fields": [_fld("0", None, "", _ty("Int", "u8", ["Vec"])), _fld("1", None, "", _ty("Int", "i64", ["Vec", "Opt"])),
+                    _fld("2", None, "", _ty("Bool", "", ["Vec", "Vec"])), _fld("3", None, "", _ty("Str", "", ["Vec", "Opt"]))]}
+    vs = []
+    for nones in (lambda k, n: k % 7 == 0, lambda k, n: k == n - 1, lambda k, n: k % 2 == 1):
+        n1 = 48
+        v = val("struct", c=[
+            val("vec", c=[val("int", "", to_bits(k % 256)) for k in range(260)]),
+            val("vec", c=[val("none") if nones(k, n1) else val("some", c=[val("int", "-" if k % 3 == 0 and k else "", to_bits((1 << (k % 63)) + k))])
+                          for k in range(n1)]),
+            val("vec", c=[val("vec", c=[val("bool", "true" if (k + h) % 2 else "false") for h in range(k % 4)]) for k in range(50)]),
+            val("vec", c=[val("none") if nones(k, 5) else val("some", c=[val("str", cat["strings"][k % len(cat["strings"])])]) for k in range(5)])])
+        vs.append(("D1", v, len(vs) == 0))
+    out.append(([d], vs))
+    return out
+
+
+def _lit(k, items=(), ks=(), tc=False, e=0):
+    return {"k": k, "e": e, "tc": tc, "ks": list(ks), "items": list(items)}
+
+
+def sweep_literals(cat):
+    nl, nk = len(cat["leaves"]), len(cat["keys"])
+    cnt = [0]
+
+    def leaf():
+        cnt[0] += 1
+        return _lit("null") if cnt[0] % 4 == 0 else _lit("expr", e=(cnt[0] % nl) + 1)
+
+    def nested():
+        return [_lit("arr"), _lit("arr", [leaf()]), _lit("arr", [_lit("null"), leaf()]), _lit("arr", [_lit("arr", [leaf()])]),
+                _lit("obj"), _lit("obj", [_lit("arr", [leaf(), _lit("null")])], [(cnt[0] % nk) + 1]),
+                _lit("arr", [leaf(), _lit("arr", [_lit("null"), leaf()], tc=True)]),
+                _lit("obj", [_lit("null"), _lit("obj", [_lit("arr")], [2])], [1, 3])]
+
+    out = []
+    for kind in ("arr", "obj"):
+        for width in (2, 3, 4):
+            for pos in range(width):
+                for ni in range(len(nested())):
+                    for tc in (False, True):
+                        items = [leaf() for _ in range(width)]
+                        items[pos] = nested()[ni]
+                        ks = [((pos + h + ni) % nk) + 1 for h in range(width)] if kind == "obj" else []
+                        out.append(_lit(kind, items, ks, tc))
+    # every key form in every position of a three-member object
+    for k in range(nk):
+        for pos in range(3):
+            ks = [((k + 1 + h) % nk) + 1 for h in range(3)]
+            ks[pos] = k + 1
+            if len(set(ks)) == 3:
+                out.append(_lit("obj", [leaf(), _lit("arr", [leaf()]), _lit("null")], ks, bool(pos % 2)))
+    # long literals (each element costs one macro recursion; the default limit is 128)
+    for n in (20, 40, 60):
+        items = []
+        for k in range(n):
+            items.append(_lit("null") if k % 5 == 0 else _lit("arr", [_lit("null"), leaf()]) if k % 7 == 3 else
+                         _lit("obj", [leaf()], [(k % nk) + 1]) if k % 11 == 6 else leaf())
+        out.append(_lit("arr", items, tc=n == 40))
+    out.append(_lit("obj", [leaf() if k % 3 else _lit("arr", [_lit("null"), leaf()]) for k in range(nk)], list(range(1, nk + 1)), True))
+    return out
+
 
 def require_prints(name, r, at_least):
     if r.violation or len(r.prints) < at_least:
@@ -553,13 +824,15 @@ def run(tier, replay):
             # the large configurations run without -coverage (it halves TLC's speed); the same actions are guarded above
             mcs += [("MC_JsonMap_thorough.cfg", 8, None), ("MC_JsonMap_triples.cfg", 8, None)]
         for cfg, workers, acts in mcs:
-            r = tlc("MC_JsonMap.tla", cfg, workers=workers, coverage=acts is not None, timeout=2400, heap="6g")
+            r = tlc("MC_JsonMap.tla", cfg, workers=workers, coverage=acts is not None, timeout=2400, heap="4g")
             ctx.add_tlc("theorems, Dev={} (%s)" % cfg, r)
             ctx.require_tlc_ok(cfg, r)
             if acts:
                 ctx.require_cover(cfg, r, acts)
-        for cfg, dev, inv in SENSITIVITY:
-            r = tlc("MC_JsonMap.tla", cfg, workers=2, timeout=600)
+        # the tiny sensitivity runs are JVM start-up bound: four at a time
+        with ThreadPoolExecutor(max_workers=4) as ex:
+            sens = list(ex.map(lambda c: tlc("MC_JsonMap.tla", c[0], workers=1, timeout=600, work_id="c14-" + c[1] + c[2]), SENSITIVITY))
+        for (cfg, dev, inv), r in zip(SENSITIVITY, sens):
             ctx.add_tlc("sensitivity: Dev={%s} must violate %s" % (dev, inv), r)
             if r.violation != "invariant" or r.violated_name != inv:
                 raise vlib.ToolError("model lost sensitivity: Dev={%s} no longer violates %s (%s %s)" % (dev, inv, r.violation, r.violated_name))
@@ -584,17 +857,16 @@ def run(tier, replay):
         else:
             raise vlib.ToolError("replay file has nothing to replay (kind %s)" % case.get("kind"))
     else:
-        for cfg, workers, least in (("Gen_JsonMap_lib.cfg", 1, 4),
-                                    ("Gen_JsonMap_decl_thorough.cfg" if thorough else "Gen_JsonMap_decl_quick.cfg", 6, 100)):
-            g = tlc("MC_JsonMap.tla", cfg, workers=workers, timeout=1500, heap="6g")
+        gens = [("Gen_JsonMap_lib.cfg", 1, 4), ("Gen_JsonMap_ints.cfg", 4, 30),
+                ("Gen_JsonMap_decl_thorough.cfg" if thorough else "Gen_JsonMap_decl_quick.cfg", 4, 100),
+                ("Gen_JsonMap_lit_thorough.cfg" if thorough else "Gen_JsonMap_lit_quick.cfg", 2, 1000),
+                ("Gen_JsonMap_lit_leaves.cfg", 2, 500)]
+        with ThreadPoolExecutor(max_workers=3) as ex:        # independent TLC runs, three at a time
+            outs = list(ex.map(lambda c: tlc("MC_JsonMap.tla", c[0], workers=c[1], timeout=1500, heap="4g", work_id="c14-" + c[0][12:-4]), gens))
+        for (cfg, workers, least), g in zip(gens, outs):
             require_prints(cfg, g, least)
             ctx.add_tlc("generation %s" % cfg, g)
             programs += [x for x in g.prints if x.get("kind") == "map"]
-        for cfg, least in (("Gen_JsonMap_lit_thorough.cfg" if thorough else "Gen_JsonMap_lit_quick.cfg", 1000),
-                           ("Gen_JsonMap_lit_leaves.cfg", 500)):
-            g = tlc("MC_JsonMap.tla", cfg, workers=4, timeout=1500, heap="6g")
-            require_prints(cfg, g, least)
-            ctx.add_tlc("generation %s" % cfg, g)
             literals += [x for x in g.prints if x.get("kind") == "lit"]
         programs.sort(key=lambda x: json.dumps(x["prog"][-1], sort_keys=True))
         seen, ls = set(), []
@@ -604,7 +876,7 @@ def run(tier, replay):
                 ls.append(x)
         literals = ls
 
-    crate = Crate()
+    crate = CrateSet()
     enum_map, enum_lit = {}, {}          # vector id -> (TLC line, vector)
     for i, line in enumerate(programs):
         mod = "p%04d" % i
@@ -615,7 +887,13 @@ def run(tier, replay):
             vid = "%s.v%d" % (mod, q + 1)
             specs.append((vid, "v%d" % (q + 1), d, vec["v"], vec["doc"]))
             enum_map[vid] = (line, vec)
-        crate.add_program(mod, prog, specs, "TLC family member %s/%s with %d field(s)" % (d["kind"], d["via"], len(d["fields"])))
+        split = []
+        if d["via"] == "derive" and line["vecs"]:
+            # the same first vector once more with IntoJson and FromJson derived on two separate types
+            vid = "%s.s1" % mod
+            split.append((vid, "s1", d, line["vecs"][0]["v"], line["vecs"][0]["doc"]))
+            enum_map[vid] = (line, line["vecs"][0])
+        crate.add_program(mod, prog, specs, "TLC family member %s/%s with %d field(s)" % (d["kind"], d["via"], len(d["fields"])), split)
     lit_specs = []
     for i, line in enumerate(literals):
         vid = "l%05d" % i
@@ -635,10 +913,18 @@ def run(tier, replay):
                                        "v": ri.decl_value(d, prog), "pidx": p})
         for i in range(nlit):
             rnd_inputs.append({"id": "rl%04d" % i, "kind": "lit", "ast": ri.literal(ri.rng.randint(1, 6))})
+        for p, (prog, vs) in enumerate(sweep_programs(cat)):
+            for q, (dname, v, twin) in enumerate(vs):
+                x = {"id": "s%03d.%s.v%d" % (p, dname.lower(), q + 1), "kind": "map", "prog": prog, "d": dname, "v": v, "pidx": 1000 + p}
+                rnd_inputs.append(x)
+                if twin:
+                    rnd_inputs.append(dict(x, id=x["id"] + ".t", split=True))
+        for i, ast in enumerate(sweep_literals(cat)):
+            rnd_inputs.append({"id": "sl%04d" % i, "kind": "lit", "ast": ast})
     if rnd_inputs:
         inp = os.path.join(work, "inputs-%s.ndjson" % tier)
         vlib.write_lines(inp, rnd_inputs)
-        e = tlc("Trace_JsonMap.tla", "Trace_JsonMap.cfg", workers=1, env={"TRACE": inp, "EXPECT": "1"}, timeout=1500, deque=True, heap="6g")
+        e = tlc("Trace_JsonMap.tla", "Trace_JsonMap.cfg", workers=1, env={"TRACE": inp, "EXPECT": "1"}, timeout=1500, deque=True, heap="4g")
         os.remove(inp)
         docs = {x["id"]: x for x in e.prints if "doc" in x}
         if e.violation or len(docs) != len(rnd_inputs) or not all(x["indomain"] for x in docs.values()):
@@ -651,14 +937,20 @@ def run(tier, replay):
         for p, xs in sorted(byprog.items()):
             prog = xs[0]["prog"]
             specs = [(x["id"], x["id"].split(".", 1)[1].replace(".", "_"),
-                      next(d for d in prog if d["name"] == x["d"]), x["v"], docs[x["id"]]["doc"]) for x in xs]
-            crate.add_program("r%03d" % p, prog, specs, "random program with %d declaration(s)" % len(prog))
+                      next(d for d in prog if d["name"] == x["d"]), x["v"], docs[x["id"]]["doc"], bool(x.get("split"))) for x in xs]
+            crate.add_program("r%03d" % p, prog, [t[:5] for t in specs if not t[5]],
+                              ("random" if p < 1000 else "sweep") + " program with %d declaration(s)" % len(prog), [t[:5] for t in specs if t[5]])
         rl = [x for x in rnd_inputs if x["kind"] == "lit"]
         src_of = {x["id"]: docs[x["id"]]["src"] for x in rl}          # Src(ast), rendered by TLC
         crate.add_literals("rlits", [(x["id"], src_of[x["id"]], docs[x["id"]]["doc"]) for x in rl], cat["env"])
 
     # ---- 4. compile against /repo and run ----------------------------------------------------------
-    res, compile_errors = build_and_run(crate, ctx, "enumerated + random")
+    res, compile_errors = {}, []
+    for ci, c in enumerate(crate.crates):
+        if c.vecs:
+            r1, ce1 = build_and_run(c, ctx, "%d of %d" % (ci + 1, len(crate.crates)))
+            res.update(r1)
+            compile_errors += ce1
     # ---- 5. enumerated vectors against TLC's expectation --------------------------------------------
     n_eval, nontrivial, mism, tally = 0, set(), 0, {}
     findings = []                        # (what, replay object, deviation or None); reported shortest first
@@ -710,7 +1002,7 @@ def run(tier, replay):
         recs = []
         for x in rnd_inputs:
             r = res[x["id"]]
-            rec = {k: v for k, v in x.items() if k != "pidx"}
+            rec = {k: v for k, v in x.items() if k not in ("pidx", "split")}
             rec["compiled"] = r["compiled"]
             rec["rustc"] = r.get("rustc", "")
             rec["panic"] = r.get("panic", "")
@@ -729,7 +1021,7 @@ def run(tier, replay):
         def validate(records, name):
             path = os.path.join(work, "%s-%s.ndjson" % (name, tier))
             vlib.write_lines(path, records)
-            t = tlc("Trace_JsonMap.tla", "Trace_JsonMap.cfg", workers=1, env={"TRACE": path, "EXPECT": "0"}, timeout=1800, deque=True, heap="6g")
+            t = tlc("Trace_JsonMap.tla", "Trace_JsonMap.cfg", workers=1, env={"TRACE": path, "EXPECT": "0"}, timeout=1800, deque=True, heap="4g")
             os.remove(path)
             summ = [x for x in t.prints if x.get("summary")]
             if not summ or summ[-1]["n"] != len(records):
@@ -756,8 +1048,9 @@ def run(tier, replay):
         # binding self-test: one altered observation must be rejected by TLC (DESIGN 3.1); it presumes a clean run
         # (on a tree with unexplained mismatches the picked "good" records need not be good)
         unexplained = [f for f in findings if f[2] is None]
-        good = [] if (replay or unexplained) else ([x for x in recs if x["kind"] == "map" and x["panic"] == "" and x["obs"]["c"]][:1] +
-                                  [x for x in recs if x["kind"] == "lit" and x["obs"]["c"]][:1])
+        judged = {a["id"] for a in summ["attributed"]} | {b["id"] for b in summ["rejected"]}
+        clean = [x for x in recs if x["id"] not in judged and x["compiled"] and x["panic"] == "" and x["obs"]["c"]]
+        good = [] if (replay or unexplained) else ([x for x in clean if x["kind"] == "map"][:1] + [x for x in clean if x["kind"] == "lit"][:1])
         bad = []
         for x in good:
             y = json.loads(json.dumps(x))
@@ -769,12 +1062,15 @@ def run(tier, replay):
             if len(s2["rejected"]) != len(bad) or t2.violation != "invariant":
                 raise vlib.ToolError("binding self-test failed: corrupted records were not rejected (%s)" % s2)
             ctx.add_part("binding self-test", corrupted=len(bad), rejected=len(s2["rejected"]))
-        # ... and the comparison of enumerated vectors notices a flipped expectation
-        for vid, (line, vec) in list(enum_map.items())[:1]:
-            if vid in res:
+        # ... and the comparison of enumerated vectors notices a flipped expectation (on a vector that agreed)
+        for vid, (line, vec) in enum_map.items():
+            if unexplained:
+                break
+            if res[vid]["compiled"] and judge(res[vid], vec["exp"], [], [], map_agrees) == "ok":
                 flipped = dict(vec["exp"], rt=not vec["exp"]["rt"])
                 if judge(res[vid], flipped, [], [], map_agrees) == "ok":
                     raise vlib.ToolError("binding self-test failed: flipped expectation accepted")
+                break
 
     for what, obj, dev in sorted(findings, key=lambda f: len(f[0])):
         ctx.violation(what[:1200], obj, dev=dev)
@@ -782,7 +1078,7 @@ def run(tier, replay):
     ctx.cov["evaluations"] = n_eval
     ctx.cov["distinct_nontrivial"] = len(nontrivial)
     ctx.cov["traces_validated_against_impl"] = validated
-    ctx.cov["programs"] = len(crate.owner)
+    ctx.cov["programs"] = crate.modules
     ctx.cov["disagreements_checked"] = len(findings) + len(compile_errors)
     ctx.cov["exhaustive"] = not replay
     ctx.cov["rule"] = ("enumerated: every declaration of the rotating family (base type x wrapper stack x route x size) with its first %d diagonal values, "
